@@ -95,6 +95,44 @@ func writeE2E(rng *rand.Rand, dir string, n int, immediate, small bool) {
 		for _, r := range c.Roles {
 			cast = append(cast, r.Actors...)
 		}
+		// very long lines (bufio.Reader.ReadString has no line limit): copies
+		// of generated lines with 4 KiB / 8 KiB / 64 KiB+ of padding in front,
+		// so that the fields - the values - are at the END of the line, and
+		// with an event text of 5000 characters where the role has one
+		var cands []int
+		for k, it := range items {
+			if it.Line.Text != "" && len(it.Line.Body) > 0 {
+				cands = append(cands, k)
+			}
+		}
+		for k, n := range []int{4100, 8200, 70000} {
+			if len(cands) == 0 {
+				break
+			}
+			src := items[cands[rng.Intn(len(cands))]].Line
+			nl := *src
+			nl.Body = append([]string{"pad" + strings.Repeat("x", n)}, src.Body...)
+			if k != 1 {
+				for _, sg := range c.roleOf(src.Actor).Sigs {
+					if sg.Kind != 0 || (sg.ValRe != `\S+` && sg.ValRe != `\w+`) {
+						continue
+					}
+					long := sg.Key + "=" + strings.Repeat("w", 4990) + "theEnd9"
+					found := false
+					for bi := 1; bi < len(nl.Body); bi++ {
+						if strings.HasPrefix(nl.Body[bi], sg.Key+"=") {
+							nl.Body[bi], found = long, true
+						}
+					}
+					if !found {
+						// in front of the other fields (a rest-of-line text stays last)
+						nl.Body = append([]string{nl.Body[0], long}, nl.Body[1:]...)
+					}
+				}
+			}
+			nl.Text = strings.Join(nl.tokens(), " ")
+			items = append(items, ItemGen{Kind: "line", Line: &nl})
+		}
 		// the sentinel line of every actor (a line like any other: the
 		// whole-line patterns of its role match it)
 		for _, a := range cast {
@@ -415,7 +453,7 @@ func checkE2E(dir, out string) {
 				} else if pt.Date {
 					t = "TNsLoose " + coqZ(pt.Ns-off)
 				}
-				d := "DText " + coqS(escapeByHand(pt.Text))
+				d := "DText " + coqS(shortText(escapeByHand(pt.Text)))
 				if f.Kind != 0 && pt.Num != "" {
 					r, _ := new(big.Rat).SetString(pt.Num)
 					d = "DNum " + coqRat(r)
